@@ -74,8 +74,11 @@ func (e *ExecutorEngine) StartOperation(ctx context.Context, id string, payload 
 
 // StopSubscription will stop an active subscription.
 func (e *ExecutorEngine) StopSubscription(id string, eventHandler EventHandler) error {
-	e.subCancellations.Cancel(id)
-	eventHandler.Emit(EventTypeOnSubscriptionCompleted, id, nil, nil)
+	// only an operation that is still active is completed: for an unknown id or an operation
+	// that has already received its terminal message nothing may be sent anymore
+	if e.subCancellations.Cancel(id) {
+		eventHandler.Emit(EventTypeOnSubscriptionCompleted, id, nil, nil)
+	}
 	return nil
 }
 
